@@ -45,6 +45,17 @@ def _init_path_rule(A, qual, guarded):
 
 
 
+def _request_derived(expr, param='path', table='static_files'):
+    """Does the term mention the request path other than as a key of the mapping table?"""
+    def rec(n):
+        if isinstance(n, ast.Subscript) and isinstance(n.value, ast.Name) and n.value.id == table:
+            return False
+        if isinstance(n, ast.Name) and n.id == param:
+            return True
+        return any(rec(c) for c in ast.iter_child_nodes(n))
+    return expr is not None and rec(expr)
+
+
 def _same_term_check(A, gs, v, san):
     """The term appended to the mapped root is the very term whose segments were tested for
     '..': nothing decodes, normalises or otherwise rewrites it after the test (``%2e%2e``
@@ -61,7 +72,7 @@ def _same_term_check(A, gs, v, san):
         return
     for e in v.ev:
         if not (e.kind == 'write' and txt(e.target).endswith("['filename']") and
-                ".rsplit('/', 1)[1]" in txt(e.expr)):
+                _request_derived(unawait(e.expr))):
             continue
         root = unawait(e.expr)
         bad = []
@@ -75,8 +86,12 @@ def _same_term_check(A, gs, v, san):
                             a_.func.attr not in ('lstrip', 'rstrip', 'strip', 'join', 'format'):
                         bad.append('rewritten after the test: ' + ast.unparse(a_)[:90])
                 return
-            if isinstance(n, ast.Subscript) and ast.unparse(n).endswith(".rsplit('/', 1)[1]"):
-                bad.append('request-derived text outside the tested term: ' + ast.unparse(n)[:90])
+            if isinstance(n, ast.Subscript) and isinstance(n.value, ast.Name) and \
+                    n.value.id == 'static_files':
+                return
+            if isinstance(n, ast.Name) and n.id == 'path':
+                bad.append('request-derived text outside the tested term: ' +
+                           ast.unparse(anc[0][0] if anc else n)[:90])
                 return
             for c in ast.iter_child_nodes(n):
                 walk(c, [(n, c)] + anc)
@@ -297,7 +312,7 @@ def check(A):
                 e.kind == 'call' and ".rsplit('/', 1)" in txt(e.expr) for e in v.ev):
             continue
         if not any(e.kind == 'write' and txt(e.target).endswith("['filename']") and
-                   ".rsplit('/', 1)[1]" in txt(e.expr) for e in v.ev):
+                   _request_derived(unawait(e.expr)) for e in v.ev):
             continue
         # the request-derived suffix is part of the file name on this path
         n_dir += 1
@@ -336,27 +351,63 @@ def check(A):
             'C20.content-type', 'the extension table maps html/js/css to their media types',
             'src/engineio/static_files.py', key='static-ctype-table')
     ok = False
+    guard = False
+    seen_default = seen_lookup = False
+    EXT = ("_x.rsplit('.')[-1]", "_x.rsplit('.', 1)[-1]", "_x.split('.')[-1]")
+
+    def _ext_of(t_):
+        for f_ in EXT:
+            m_ = match(f_, t_)
+            if m_ is not None:
+                return m_['x']
+        return None
     for p_ in [p for p in A.paths(A.enum(loop_bound=1, follow_handlers=False, max_paths=60000), gs)
                if p.outcome == 'return'][:400]:
+        v_ = PV(p_)
+        gat = v_.guard_atoms()
         for e in p_.events:
-            if e.kind == 'write' and txt(e.target).endswith("['content_type']") and \
-                    'content_types.get(' in txt(e.expr):
-                c = match("content_types.get(_x.rsplit('.')[-1], 'application/octet-stream')",
-                          e.expr) or \
-                    match("content_types.get(_x.rsplit('.', 1)[-1], 'application/octet-stream')",
-                          e.expr) or \
-                    match("content_types.get(_x.split('.')[-1], 'application/octet-stream')",
-                          e.expr)
-                fn_w = [txt(w_.expr) for w_ in p_.events if w_.kind == 'write' and
-                        txt(w_.target).endswith("['filename']")]
-                A.check(c is not None and (txt(c['x']).endswith("['filename']") or
-                                           (fn_w and txt(c['x']) == fn_w[-1])),
-                        'C20.content-type', 'the content type is looked up by the text after '
-                        'the LAST dot of the file name', A.site(gs, e.node), key='static-ext',
-                        detail=txt(e.expr),
-                        behaviour='jquery.min.js is served as application/octet-stream')
-                ok = c is not None
-    guard = any(isinstance(n, ast.If) and match("'content_type' not in _f", n.test) is not None
-                for n in ast.walk(gs.node))
-    A.check(ok and guard, 'C20.content-type', "the content type is the mapping's, else by "
-            'extension, else application/octet-stream', A.site(gs), key='static-ctype-default')
+            if not (e.kind == 'write' and txt(e.target).endswith("['content_type']")):
+                continue
+            t = txt(e.expr)
+            ex = unawait(e.expr)
+            x = None
+            shape_ok = True
+            g2 = match("content_types.get(_k, 'application/octet-stream')", ex)
+            if g2 is not None:
+                # one lookup with a default
+                x = _ext_of(g2['k'])
+                seen_default = seen_lookup = True
+            elif match('content_types[_k]', ex) is not None:
+                # explicit form: the table entry under ``k in content_types``
+                k_ = match('content_types[_k]', ex)['k']
+                x = _ext_of(k_)
+                shape_ok = (txt(k_) + ' in content_types', True) in gat
+                seen_lookup = True
+            elif t == "'application/octet-stream'":
+                ks = [a[:-len(' in content_types')] for a, pl in gat
+                      if a.endswith(' in content_types') and not pl]
+                if not ks:
+                    shape_ok = False
+                else:
+                    try:
+                        x = _ext_of(ast.parse(ks[-1], mode='eval').body)
+                    except SyntaxError:
+                        x = None
+                seen_default = True
+            elif 'content_types' in t:
+                shape_ok = False
+            else:
+                continue        # the mapping's own content type
+            fn_w = [txt(w_.expr) for w_ in p_.events if w_.kind == 'write' and
+                    txt(w_.target).endswith("['filename']")]
+            A.check(shape_ok and x is not None and (txt(x).endswith("['filename']") or
+                                                    (fn_w and txt(x) == fn_w[-1])),
+                    'C20.content-type', 'the content type is looked up by the text after '
+                    'the LAST dot of the file name', A.site(gs, e.node), key='static-ext',
+                    detail=[t] + [a for a, pl in gat if 'content_type' in a][:4],
+                    behaviour='jquery.min.js is served as application/octet-stream')
+            ok = ok or (shape_ok and x is not None)
+            guard = guard or any(a.startswith("'content_type' in ") and not pl for a, pl in gat)
+    A.check(ok and guard and seen_default and seen_lookup, 'C20.content-type', "the content "
+            "type is the mapping's, else by extension, else application/octet-stream",
+            A.site(gs), key='static-ctype-default')
